@@ -16,6 +16,8 @@ AGREE = ['Area.v']
 ATOL = 1e-8      # numpy.isclose default atol (Line.intersect: np.isclose(denom, 0))
 TOL = 1e-12      # Path.intersect default tol (redundancy filter)
 U = Fr(1, 2 ** 53)
+SPECIAL_MODES = ['bowtie-lobe', 'bowtie-gap', 'pentagram-tip', 'pentagram-core', 'spiral2', 'spiral2',
+                 'figure8-lobe', 'figure8-gap']
 KNOWN_UNTRANSLATED = {'gen_Path_area_1Line'}   # Path.area itself: Path(*list) is outside the subset (recorded every run)
 
 
@@ -253,6 +255,100 @@ def ellipse_path(rng):
     return Path(*arcs), {'a': a, 'b': b, 'phi': phi, 'c': c, 'deltas': [d1, d2]}
 
 
+
+# ---- containment: self-intersecting outer paths, doubly winding inner paths
+def snap(z, den=16):
+    return complex(round(z.real * den) / den, round(z.imag * den) / den)
+
+
+def small_poly(rng, cen, size):
+    """small convex polygon (3-6 vertices, dyadic) of extent <= size around cen"""
+    vs = gen_convex(rng, rng.randint(3, 6))
+    xs = [v.real for v in vs]; ys = [v.imag for v in vs]
+    ext = max(max(xs) - min(xs), max(ys) - min(ys))
+    c0 = snap(complex((max(xs) + min(xs)) / 2, (max(ys) + min(ys)) / 2), 64)
+    sc = 2.0 ** math.floor(math.log2(size / ext))
+    cen = snap(cen, 64)
+    out = [(v - c0) * sc + cen for v in vs]
+    if rng.random() < 0.4:
+        out = out[::-1]
+    k0 = rng.randrange(len(out))
+    return out[k0:] + out[:k0]
+
+
+def gen_bowtie(rng):
+    """bow-tie a -> b -> c -> d: two triangular lobes of opposite orientation (signed
+    area 0, or small when skewed).  Returns (verts, lobe centres, gap centres)"""
+    W, H = rng.choice([8, 16, 32, 64]), rng.choice([8, 16, 32])
+    z0 = complex(dy(rng, -40, 40), dy(rng, -40, 40))
+    sk = rng.choice([0, 0, 1 / 16, -1 / 8, 0.5])
+    a, b, c, d = z0, z0 + complex(W, H + sk), z0 + complex(W, 0), z0 + complex(0, H)
+    ctr = z0 + complex(W / 2, H / 2)
+    lobes = [(ctr + b + c) / 3, (ctr + d + a) / 3]
+    gaps = [z0 + complex(W / 2, 0.85 * H), z0 + complex(W / 2, 0.15 * H)]
+    vs = [a, b, c, d]
+    if rng.random() < 0.5:
+        vs = vs[::-1]
+    k0 = rng.randrange(4)
+    return vs[k0:] + vs[:k0], lobes, gaps, min(W, H)
+
+
+def gen_pentagram(rng):
+    """{5/2} star: the core pentagon has winding number 2 (not enclosed by the
+    even-odd rule), the five tips winding number 1"""
+    R = rng.choice([16, 32, 64])
+    z0 = complex(dy(rng, -40, 40), dy(rng, -40, 40))
+    ph = rng.choice([90, 90, 18, 54, 0])
+    ang = [math.radians(ph + 144 * k) for k in range(5)]
+    vs = [z0 + snap(R * complex(math.cos(t), math.sin(t))) for t in ang]
+    tips = [z0 + 0.72 * R * complex(math.cos(t), math.sin(t)) for t in ang]
+    if rng.random() < 0.5:
+        vs = vs[::-1]
+    return vs, tips, [z0], R
+
+
+def gen_spiral2(rng):
+    """inner: polygonal spiral making two turns (winding number 2 around its
+    centre), closed by one edge; outer: convex k-gon around it whose area is
+    smaller than the spiral's signed area"""
+    r1 = rng.choice([8, 16, 32])
+    z0 = complex(dy(rng, -40, 40), dy(rng, -40, 40))
+    ph = rng.uniform(0, 2 * math.pi)
+    m = rng.choice([6, 8, 10])
+    sgn = rng.choice([1, 1, -1])
+    n = 2 * m
+    inner = []
+    for k in range(n):
+        r = r1 * (0.8 + 0.2 * k / n)
+        t = ph + sgn * 2 * math.pi * k / m
+        inner.append(z0 + snap(r * complex(math.cos(t), math.sin(t))))
+    kk = rng.choice([6, 8, 12])
+    ro = 1.08 * r1 / math.cos(math.pi / kk)
+    p2 = rng.uniform(0, 2 * math.pi)
+    outer = [z0 + snap(ro * complex(math.cos(p2 + 2 * math.pi * j / kk), math.sin(p2 + 2 * math.pi * j / kk)))
+             for j in range(kk)]
+    if rng.random() < 0.4:
+        outer = outer[::-1]
+    k0 = rng.randrange(n)
+    return inner[k0:] + inner[:k0], outer
+
+
+def figure8_path(rng):
+    """two cubic teardrop loops through one point, traversed in opposite
+    senses (signed area 0 when symmetric).  Returns (path, lobe centres, gap
+    centres, size)"""
+    from svgpathtools import Path, CubicBezier
+    s = rng.choice([1.0, 2.0, 8.0, 0.5])
+    z0 = complex(dy(rng, -20, 20), dy(rng, -20, 20))
+    f = rng.choice([1.0, 1.0, 0.75, 1.25])       # relative size of the left lobe
+    A = CubicBezier(z0, z0 + s * (4 + 4j), z0 + s * (4 - 4j), z0)
+    B = CubicBezier(z0, z0 + s * f * (-4 + 4j), z0 + s * f * (-4 - 4j), z0)
+    path = Path(A, B) if rng.random() < 0.5 else Path(B, A)
+    lobes = [z0 + s * 1.75, z0 - s * f * 1.75]
+    gaps = [z0 + s * complex(2.8, 1.0), z0 + s * complex(-2.8 * f, -1.0 * f), z0 + s * complex(0.2, 0.9)]
+    return path, lobes, gaps, s
+
+
 # ------------------------------------------------------------ serialisation
 def seg_json(s):
     from svgpathtools import Arc
@@ -388,6 +484,30 @@ Definition ok (c : casety) : nat :=
                       (fun a b => encloses_polygon N atol tol2 a b edges)), 2) ].
 '''
 CON_OBS = {1: 'outer.bbox() vs the model', 2: 'is_contained_by vs the model (intersect-any given as observed)'}
+
+
+OKDEF_CON2 = r'''
+From SVP Require Import Model.Bezier Model.Area.
+Definition N := NumQ.
+(* outer path not a polygon: its bbox and the answer of path_encloses_pt are observations
+   (None = is_contained_by returned without asking).  The decision structure is the model's. *)
+(* case: (outer.bbox(), inner.point(0), bool(inner.intersect(outer, justonemode)), path_encloses_pt answer, result) *)
+Definition casety : Type := ((Qc * Qc * Qc * Qc) * Cplx Qc * bool * option bool * bool)%type.
+Definition ok (c : casety) : nat :=
+  let '(bb, pt, inter, encl, obs) := c in
+  first_fail
+   [ (match encl with
+      | Some e => Bool.eqb obs (is_contained_by N inter bb pt (fun _ _ => e))
+      | None => Bool.eqb obs (is_contained_by N inter bb pt (fun _ _ => true))
+                && Bool.eqb obs (is_contained_by N inter bb pt (fun _ _ => false))
+      end, 1);
+     (match encl with          (* the enclosure test is consulted exactly when the model consults it *)
+      | Some _ => negb inter && in_bbox N bb pt
+      | None => inter || negb (in_bbox N bb pt)
+      end, 2) ].
+'''
+CON2_OBS = {1: 'is_contained_by vs the model decision (intersect-any, bbox and enclosure answer as observed)',
+            2: 'is_contained_by consults path_encloses_pt exactly when no intersection was found and the start is in the bbox'}
 
 
 def coq_cseg(s, chord):
@@ -1002,7 +1122,69 @@ def run(rep, tier, seed, replay=None):
             con_meta.append(dict(base, observed=got, intersects=inter))
             cls = 'crossing' if crosses else ('nested' if enclosed else 'disjoint')
             dist['con-' + cls] = dist.get('con-' + cls, 0) + 1
+            if abs(shoelace([fz(v) for v in inner_vs])) > abs(shoelace([fz(v) for v in outer_vs])):
+                # |signed area| says nothing about containment (cancelling lobes, double winding)
+                dist['con-%s-inner-area-exceeds-outer' % cls] = dist.get('con-%s-inner-area-exceeds-outer' % cls, 0) + 1
+            if '/' in kind and kind.split('/')[0] in SPECIAL_MODES:
+                dist['con-' + kind.split('/')[0]] = dist.get('con-' + kind.split('/')[0], 0) + 1
             nontrivial.add(('con', cls, len(inner_vs), len(outer_vs), len(con_cases)))
+            return True
+
+
+        con2_cases, con2_meta = [], []
+
+        def con_check_curved(inner_vs, outer, kind):
+            """outer is a closed curved path; references from dense samples"""
+            nonlocal evals
+            inner = poly_path(inner_vs)
+            cen = sum(inner_vs) / len(inner_vs)
+            rad = max(abs(v - cen) for v in inner_vs)
+            bb0 = outer.bbox()
+            size = max(bb0[1] - bb0[0], bb0[3] - bb0[2])
+            dmin = min(abs(z - cen) for z in sample_path(outer, 1500))
+            if dmin < rad + 0.02 * size:
+                return False                   # not clearly apart from the curve
+            pt = inner_vs[0]
+            opt = complex(bb0[0] - 1, bb0[2] - 1)
+            gp, cnt = probe_crossings_sampled(outer, pt, opt)
+            if not gp:
+                return False                   # the implied probe is not in general position
+            enclosed = (cnt % 2 == 1)
+            want = enclosed                    # the paths do not cross
+            base = {'kind': 'contained-curved', 'shape': kind, 'inner': [common.chex(v) for v in inner_vs],
+                    'path': path_json(outer)}
+            import svgpathtools.path as sp
+            probes = []
+            orig_enc = sp.path_encloses_pt
+
+            def spy(pt_, opt_, path_):
+                r_ = orig_enc(pt_, opt_, path_)
+                probes.append((pt_, opt_, bool(r_)))
+                return r_
+            sp.path_encloses_pt = spy
+            try:
+                got = bool(inner.is_contained_by(outer))
+                inter = bool(inner.intersect(outer, justonemode=True))
+                bb = outer.bbox()
+            except Exception as e:
+                viol('is_contained_by raised %s' % type(e).__name__, dict(base, error=repr(e)), 'contained-exception')
+                return True
+            finally:
+                sp.path_encloses_pt = orig_enc
+            evals += 1
+            if got != want:
+                viol('is_contained_by is %r but the inner polygon is clear of the outer %s path and its start is %senclosed '
+                     '(%d transversal crossings of the probe)' % (got, kind, '' if enclosed else 'not ', cnt),
+                     dict(base, observed=got, expected=want, crossings=cnt), 'contained-decision')
+            encl = ('(Some %s)' % coq_bool(probes[-1][2])) if probes else 'None'
+            con2_cases.append('((%s, %s, %s, %s), %s, %s, %s, %s)' % (
+                qc(bb[0]), qc(bb[1]), qc(bb[2]), qc(bb[3]), cq(pt), coq_bool(inter), encl, coq_bool(got)))
+            con2_meta.append(dict(base, observed=got, intersects=inter))
+            cls = kind.split('/')[0]
+            dist['con-' + cls] = dist.get('con-' + cls, 0) + 1
+            dist['con-curved-' + ('nested' if enclosed else 'disjoint')] = \
+                dist.get('con-curved-' + ('nested' if enclosed else 'disjoint'), 0) + 1
+            nontrivial.add(('con2', cls, enclosed, len(con2_cases)))
             return True
 
         if replay:
@@ -1010,8 +1192,36 @@ def run(rep, tier, seed, replay=None):
             if r.get('kind') == 'contained':
                 hx = lambda ab: complex(float.fromhex(ab[0]), float.fromhex(ab[1]))
                 con_check([hx(v) for v in r['inner']], [hx(v) for v in r['outer']], r.get('shape', 'replay'))
+            if r.get('kind') == 'contained-curved':
+                hx = lambda ab: complex(float.fromhex(ab[0]), float.fromhex(ab[1]))
+                con_check_curved([hx(v) for v in r['inner']], path_from_json(r['path']), r.get('shape', 'replay'))
+        # ---- pairs where |signed area| is no guide: self-intersecting outer paths (cancelling lobes, winding 2
+        #      cores), doubly winding inner paths, figure-eight Bezier outer paths
+        n_special = 0 if replay else (42 if quick else 700) * boost
+        done = tries = 0
+        while done < n_special and tries < 20 * n_special:
+            tries += 1
+            mode = SPECIAL_MODES[tries % len(SPECIAL_MODES)]
+            if mode in ('bowtie-lobe', 'bowtie-gap'):
+                outer_vs, lobes, gaps, sz = gen_bowtie(rng)
+                cen = rng.choice(lobes if mode == 'bowtie-lobe' else gaps)
+                ok_ = con_check(small_poly(rng, cen, sz / rng.choice([8, 16])), outer_vs, mode + '/bowtie')
+            elif mode in ('pentagram-tip', 'pentagram-core'):
+                outer_vs, tips, core, R = gen_pentagram(rng)
+                cen = rng.choice(tips if mode == 'pentagram-tip' else core)
+                ok_ = con_check(small_poly(rng, cen, R / rng.choice([8, 16])), outer_vs, mode + '/pentagram')
+            elif mode == 'spiral2':
+                inner_vs, outer_vs = gen_spiral2(rng)
+                ok_ = con_check(inner_vs, outer_vs, mode + '/convex')
+            else:
+                outer, lobes, gaps, sz = figure8_path(rng)
+                cen = rng.choice(lobes if mode == 'figure8-lobe' else gaps)
+                ok_ = con_check_curved(small_poly(rng, cen, sz * rng.choice([0.25, 0.125]) * (1 if mode == 'figure8-lobe' else 0.25)),
+                                       outer, mode + '/figure8')
+            done += 1 if ok_ else 0
         tries = 0
         simple = [p for p in polys if p[0] in ('convex', 'star')]
+        n_con += len(con_cases)
         while len(con_cases) < n_con and tries < 30 * n_con and simple and polys:
             tries += 1
             kind, outer_vs, _ = polys[rng.randrange(len(polys))] if rng.random() < 0.25 else simple[rng.randrange(len(simple))]
@@ -1053,17 +1263,27 @@ def run(rep, tier, seed, replay=None):
             viol('%s' % CON_OBS.get(code, code), dict(con_meta[idx], observation=CON_OBS.get(code, str(code))),
                  'corr-con-%d' % code)
         evals += len(con_cases) * 2
+        fails, errors = common.run_cases(tmp, '', 'casety', OKDEF_CON2, con2_cases, shard=60, prefix='con2')
+        for e in errors:
+            rep.violation('correspondence case file (is_contained_by, curved outer) failed to evaluate',
+                          {'kind': 'cases', 'error': e}, found_input=False, key='cases-error')
+        for idx, code in fails:
+            viol('%s' % CON2_OBS.get(code, code), dict(con2_meta[idx], observation=CON2_OBS.get(code, str(code))),
+                 'corr-con2-%d' % code)
+        evals += len(con2_cases) * 2
 
         # ------------------------------ evidence
         rep.cov['evaluations'] = evals
-        rep.cov['traces_validated_against_impl'] = len(area_cases) + len(enc_cases) + len(con_cases)
+        rep.cov['traces_validated_against_impl'] = len(area_cases) + len(enc_cases) + len(con_cases) + len(con2_cases)
         rep.cov['distinct_nontrivial'] = len(nontrivial)
         rep.cov['rule'] = (
             'area: closed paths (convex / star-shaped concave / self-intersecting polygons 3-12 vertices with dyadic '
             'coordinates incl. 2^-20 and 2^12 scales, rounded convex Bezier paths, random closed Line/Quad/Cubic paths, '
             'ellipses from two arcs) each with reversed / translated / scaled / rotated / transform(M) variants; distinct = '
             'distinct (shape kind, size, exact area); enclosure: (polygon, pt, opt) in exact general position, distinct = '
-            'distinct (kind, n, crossing count); containment: nested / disjoint / crossing / surrounding pairs; every Coq '
+            'distinct (kind, n, crossing count); containment: nested / disjoint / crossing / surrounding pairs, plus pairs where '
+            '|signed area| is no guide (bow-tie and pentagram outer polygons with a small polygon in a lobe / tip / gap / winding-2 '
+            'core, doubly winding spiral inside a smaller-area convex polygon, figure-eight Bezier outer path); every Coq '
             'comparison is computed on Model/Area.v in exact rationals')
         rep.cov['input_distribution'] = dist
         rep.cov['violations_by_key'] = by_key
